@@ -1248,6 +1248,111 @@ def disconnect_during_reaction_case(run, rng, pv, idx):
             pc.safe_disconnect(conn)
 
 
+def stale_error_vs_successor_case(run, rng, pv, idx):
+    """Delay injection at one statement: connect() is negotiating the version
+    with a server that does not answer the status query; a user thread calls
+    disconnect() and, at once, connect() again.  The old networking thread,
+    woken by the shutdown with an end-of-stream error, is held at the first
+    statement of Connection._handle_exception until the second connect() has
+    returned.  Whatever it does then, the session the user asked for last must
+    come about: negotiated with the (now answering) server, at the server's
+    version."""
+    import sys
+    import minecraft
+    from minecraft.networking import connection as C
+    code = C.Connection._handle_exception.__code__
+    first_line = code.co_firstlineno + 1
+    others = [p for p in minecraft.SUPPORTED_PROTOCOL_VERSIONS
+              if minecraft.KNOWN_PROTOCOL_VERSIONS.index(p) >
+              minecraft.KNOWN_PROTOCOL_VERSIONS.index(pv)]
+    if not others:
+        return None
+    default = others[-1]           # the latest allowed: the fallback version
+    H = Harness(pv)
+    rec = pc.Recorder()
+    conn = None
+    held, release = threading.Event(), threading.Event()
+    armed = [False]
+    mon = sys.monitoring
+    TOOL = 4
+    w = {'pv_server': pv, 'fallback_version': default, 'case': idx}
+
+    def on_line(co, lineno):
+        if co is code and armed[0]:
+            armed[0] = False
+            held.set()
+            release.wait(6.0)
+        return mon.DISABLE if co is not code else None
+    try:
+        K = pc.monitored_connection_class()
+        conn = K('127.0.0.1', H.server.port, username='vfuser',
+                 allowed_versions={pv, default},
+                 handle_exception=rec.handle_exception,
+                 handle_exit=rec.handle_exit)
+        conn.vf_log = rec.log
+        H.next_mode = 'status-silent'
+        conn.connect()
+        if not pc.wait_for(lambda: H.ios and getattr(H.ios[0], 'phase', '')
+                           == 'status-silent', 8.0):
+            return 'the status query never arrived'
+        mon.use_tool_id(TOOL, 'vf-stale-exc')
+        mon.register_callback(TOOL, mon.events.LINE, on_line)
+        mon.set_local_events(TOOL, code, mon.events.LINE)
+        armed[0] = True
+        conn.disconnect(immediate=idx % 2 == 0)
+        reached = held.wait(3.0)
+        if reached:
+            run.count('stale_error_held_before_routing')
+        else:
+            # (the old thread saw its interrupt flag first and left quietly)
+            run.count('stale_error_thread_left_quietly')
+        try:
+            conn.connect()
+        except Exception as e:
+            release.set()
+            run.violation('reconnect/user-thread-after-negotiation-disconnect',
+                          'connect() after disconnect() raised',
+                          dict(w, error=repr(e)))
+            return None
+        time.sleep(0.02)
+        release.set()
+        ok = pc.wait_for(lambda: any(getattr(io, 'phase', '') == 'play'
+                                     for io in H.ios[1:]), 10.0)
+        live = next((io for io in H.ios[1:]
+                     if getattr(io, 'phase', '') == 'play'), None)
+        hs_versions = [getattr(io, 'handshake', None) for io in H.ios]
+        run.count('stale_error_vs_successor_cases')
+        if not ok or live is None or not H.alive(live):
+            run.violation('stale-thread/error-routing-kills-successor',
+                          'disconnect(); connect() from a user thread while '
+                          'the old networking thread was about to route its '
+                          'end-of-stream error: the new connect() did not '
+                          'produce a working session',
+                          dict(w, phases=[getattr(io, 'phase', None)
+                                          for io in H.ios],
+                               exc=repr(rec.exceptions[:3])))
+            return None
+        ctx_pv = conn.context.protocol_version
+        if ctx_pv != pv:
+            run.violation('stale-thread/error-routing-replaces-successor',
+                          'the session that came about is not the negotiated '
+                          'one (the old thread\'s default-version fallback '
+                          'took over)', dict(w, session_version=ctx_pv,
+                                             connections=len(H.ios)))
+        return None
+    finally:
+        release.set()
+        try:
+            mon.set_local_events(TOOL, code, 0)
+            mon.register_callback(TOOL, mon.events.LINE, None)
+            mon.free_tool_id(TOOL)
+        except Exception:
+            pass
+        H.stop()
+        if conn is not None:
+            pc.safe_disconnect(conn)
+
+
 def two_connection_cases(run, rng, pv, idx):
     """Two Connection objects in one process, each with its own server
     session.  (a) Both are kicked at the same moment and each one's disconnect
@@ -1544,6 +1649,19 @@ def run(run):
         run.case(('stale-read', i))
         if err:
             run.inconclusive_because('stale-read %d: %s' % (i, err))
+    for i in range(32 if thorough else 8):
+        if not run.mine(i):
+            continue
+        err = None
+        for attempt in range(3):
+            err = stale_error_vs_successor_case(
+                run, rng, rng.choice((340, 404, 578)), i)
+            if err is None:
+                break
+        run.case(('stale-error-vs-successor', i))
+        if err:
+            run.inconclusive_because('stale error vs successor %d: %s'
+                                     % (i, err))
     for i in range(64 if thorough else 16):
         if not run.mine(i):
             continue
